@@ -6,6 +6,7 @@ import shutil
 import subprocess
 
 from . import absint, discipline, facts as factsmod, mir, taint
+from .absint import is_agg
 from .report import BrokenChecker
 
 WIT = os.path.join(factsmod.VERIF, "witness")
@@ -39,7 +40,8 @@ def load():
         return _cache[th]
     factsmod.build_driver()
     d = _prepared_copy()
-    outdir = os.path.join(factsmod.WORK, "facts", th, "witness")
+    wh = hashlib.sha256(open(os.path.join(WIT, "src", "lib.rs"), "rb").read()).hexdigest()[:10]
+    outdir = os.path.join(factsmod.WORK, "facts", th, "witness-" + wh)
     out = os.path.join(outdir, "shp_witness.json")
     if not os.path.exists(out):
         os.makedirs(outdir, exist_ok=True)
@@ -81,6 +83,76 @@ def macro_witnesses(ctx, rule):
         ok = any(c.endswith("::" + want) and ("GenericPolygon" in c or "Multipatch" in c) for c in cs)
         ctx.ob(rule, f["def"].split("::")[-1], ok, "expands to %s" % sorted(set(c.split("::")[-1] for c in cs if "record::" in c or "shapefile" in c))[:6],
                key="%s|%s" % (rule, f["def"].split("::")[-1]))
+    return n
+
+
+_PT = ('Point', 'PointM', 'PointZ')
+_ORDER = {'Point': ('x', 'y'), 'PointM': ('x', 'y', 'm'), 'PointZ': ('x', 'y', 'z', 'm')}
+
+
+def macro_bindings(ctx, rule, Fd):
+    """every coordinate written in a macro call lands in the field it was written for: the witness functions use literals that
+    say where they belong (vertex i: 10i+1, 10i+2, 10i+3, 10i+4 in the order of the type's fields); the points the expansion
+    builds (struct literals, or calls of the PointX::new constructors whose parameter-to-field binding is read from the
+    library's own facts) are compared with them"""
+    F = load()
+    # constructors of the library: parameter k -> field
+    ctor = {}
+    for ty in _PT:
+        g = Fd.identity("record::point::%s::new" % ty)
+        if g is None:
+            continue
+        try:
+            ps = absint.Interp(Fd).run(g)
+        except absint.Unanalysable:
+            continue
+        b = None
+        for p in ps:
+            if p.status == 'return' and is_agg(p.ret):
+                b = {k: v[1] for k, v in p.ret[4] if isinstance(v, tuple) and v and v[0] == 'param'}
+        ctor[ty] = b
+        good = b is not None and all(b.get(fld) == i + 1 for i, fld in enumerate(_ORDER[ty]))
+        ctx.ob(rule, "%s::new binds its parameters in field order" % ty, good,
+               "parameter -> field: %s" % (sorted(b.items(), key=lambda kv: kv[1]) if b else "not a plain aggregate"),
+               key="%s|ctor|%s" % (rule, ty))
+    n = 0
+    for f in F.identity_fns():
+        if "::macros::" not in f["def"] and not f["def"].startswith("macros::"):
+            continue
+        try:
+            ps = absint.Interp(F, inline=lambda g, t: False).run(f)
+        except absint.Unanalysable as e:
+            ctx.unanalysable(rule, f["def"], str(e))
+            continue
+        pts = []
+        for p in ps:
+            for e in list(p.eff) + [p.ret]:
+                for x in absint.subterms(e):
+                    if is_agg(x) and x[1].split('::')[-1] in _PT and all(isinstance(v, tuple) and v[0] == 'f64' for _, v in x[4]):
+                        pts.append((x[1].split('::')[-1], {k: float(v[1]) for k, v in x[4]}))
+                if isinstance(e, tuple) and e and e[0] == 'call':
+                    nm = str(e[2] or e[1])
+                    for ty in _PT:
+                        if nm.split('::<')[0].endswith("%s::new" % ty) and ctor.get(ty):
+                            args = e[3]
+                            if all(isinstance(a, tuple) and a and a[0] == 'f64' for a in args):
+                                pts.append((ty, {fld: float(args[k - 1][1]) for fld, k in ctor[ty].items() if k - 1 < len(args)}))
+        bad = []
+        for ty, flds in pts:
+            base = None
+            for i, fld in enumerate(_ORDER[ty]):
+                v = flds.get(fld)
+                if v is None or int(v) % 10 != i + 1:
+                    bad.append("%s.%s = %s" % (ty, fld, v))
+                elif base is None:
+                    base = int(v) // 10
+                elif int(v) // 10 != base:
+                    bad.append("%s.%s = %s comes from another vertex" % (ty, fld, v))
+        n += 1
+        ctx.ob(rule, "coordinates of " + f["def"].split("::")[-1], bool(pts) and not bad,
+               "%d points built, each field holds the literal written for it" % len(pts) if pts and not bad else
+               ("no point found in the expansion" if not pts else "a coordinate lands in the wrong field: %s" % sorted(set(bad))[:3]),
+               key="%s|bind|%s" % (rule, f["def"].split("::")[-1]))
     return n
 
 
